@@ -57,13 +57,25 @@ def check(run):
         r = run.tlc_mc("DiffMergeMC", cfg, label="sanity: " + what, expect_error=True)
         if "Invariant %s is violated" % inv not in r["out"]:
             raise Inconclusive("DiffMergeMC sanity configuration %s was not rejected: the model is vacuous" % cfg)
+    # model -> code: TLC writes every (old destination, source) pair of the model with the changes the ALGORITHM model emits
+    import os
+    from vlib import model_disagreements, gate_model
+    gen = os.path.join(run.work, "gen-diff")
+    os.makedirs(gen, exist_ok=True)
+    run.tlc_mc("DiffMergeMC", "DiffMergeMC_gen.cfg", workers=1, label="TLC enumerates the 28561 (old destination, source) pairs of DiffMergeMC with the changes the algorithm model emits (quick tier runs every 7th as a real transfer, thorough all)", env=dict(VERIF_GEN_DIR=gen), timeout=1800)
+    n = len([f for f in os.listdir(gen) if f.startswith("diffcase_")])
+    if n != 28561:
+        raise Inconclusive("DiffMergeMC case generation wrote %d files, 28561 expected" % n)
     t1, _ = run.drive("sync", name="sync-hist", extra=["-what", "hist"])
     t2, _ = run.drive("sync", name="sync-pairs")
     # metadata-only transfers notify too: each selected entry / needed ancestor exactly once
     t3, _ = run.drive("sync", name="sync-metasmall", extra=["-what", "metasmall"])
+    t4, _ = run.drive("sync", name="sync-diffmodel", extra=["-what", "diffmodel"], env=dict(VERIF_GEN_DIR=gen), timeout=3000)
     fails = []
-    for fam_extra, trace in ((["-what", "hist"], t1), (None, t2), (["-what", "metasmall"], t3)):
+    md = []
+    for fam_extra, trace in ((["-what", "hist"], t1), (None, t2), (["-what", "metasmall"], t3), (["-what", "diffmodel"], t4)):
         tr_all = run.tlc_trace("SyncTrace", trace)
+        md += model_disagreements(tr_all)
         if syncfam.harness_failures(tr_all):
             from vlib import Inconclusive
             raise Inconclusive("harness-level inconsistency: %s" % syncfam.harness_failures(tr_all)[:2])
@@ -72,6 +84,7 @@ def check(run):
     for nm, fn in (("drop one add/modify notification", _drop_note), ("corrupt the byte part of one digest", _wrong_digest),
                    ("drop the only delete notification of a case", _drop_delete)):
         syncfam.selftest_corrupt_prefixed(run, "SyncTrace", t1, fn, nm, {"C05"})
+    gate_model(md, fails)
     return finish(run, "model_checking", fails, assumptions=ASSUME)
 
 
